@@ -415,7 +415,7 @@ def runtime_half(quick):
                             src.append(f"    if !matches!(r, Err(push::push_vm::stack::StackError::Overflow {{ .. }})) {{ bad({cid}, \"expected an overflow error\"); }}\n    return;\n}}\n")
                             break
                         conts[i] = vals + conts[i]
-                        src.append(f"    let b = b.{m[0]}(Vec::<{s['elem']}>::from([{', '.join(vals)}])).unwrap();\n")
+                        src.append(f"    let b = match b.{m[0]}(Vec::<{s['elem']}>::from([{', '.join(vals)}])) {{ Ok(b) => b, Err(_) => {{ bad({cid}, \"{m[0]} reported an error although the values fit the configured maximum\"); return; }} }};\n")
                     elif kd == "stack_input":
                         s = st["stacks"][i]
                         name = f"in{len(inputs)}"
@@ -429,7 +429,7 @@ def runtime_half(quick):
                             src.append(f"    if !matches!(r, Err(push::push_vm::stack::StackError::Overflow {{ .. }})) {{ bad({cid}, \"expected an overflow error for the program\"); }}\n    return;\n}}\n")
                             break
                         program = [100 + j for j in range(np_)]
-                        src.append(f"    let b = b.with_program(vec![{', '.join(f'prog({x})' for x in program)}]).unwrap();\n")
+                        src.append(f"    let b = match b.with_program(vec![{', '.join(f'prog({x})' for x in program)}]) {{ Ok(b) => b, Err(_) => {{ bad({cid}, \"with_program reported an error although the program fits the configured maximum\"); return; }} }};\n")
                     elif kd == "with_no_program":
                         src.append("    let b = b.with_no_program();\n")
                     elif kd == "with_instruction_step_limit":
@@ -469,7 +469,8 @@ def runtime_half(quick):
                         src.append("}\n")
                 cases.append(dict(id=cid, struct=st["name"], path=[m[0] for m in path], schedule=sched["name"], expect_err=expect_err))
                 body.append("".join(src))
-    body.append("fn main() {\n" + "".join(f"    case{c['id']}();\n" for c in cases) + f"    println!(\"DONE {len(cases)}\");\n}}\n")
+    body.append("fn guarded(id: usize, f: fn()) { if std::panic::catch_unwind(f).is_err() { bad(id, \"panicked\"); } }\n")
+    body.append("fn main() {\n    std::panic::set_hook(Box::new(|_| {}));\n" + "".join(f"    guarded({c['id']}, case{c['id']});\n" for c in cases) + f"    println!(\"DONE {len(cases)}\");\n}}\n")
     open(os.path.join(crate, "src", "main.rs"), "w").write("".join(body))
     p = cargo(crate, ["run", "--offline", "--quiet"])
     if p.returncode != 0 or "DONE" not in p.stdout:
@@ -547,11 +548,9 @@ def main():
           "wall_s": time.time() - t0, "violations": new}
     json.dump(ev, open(os.path.join(ROOT, "evidence", "C19.json"), "w"), indent=1)
     print(f"C19 tier={tier} states={ts.get('states')} transitions={ts.get('transitions')} rustc_judged={ts.get('funcs')} matched={ts.get('matched')} runtime_cases={rt.get('cases')} of {rt.get('paths')} call orders violations={new} wall={time.time() - t0:.1f}s")
-    if mach:
-        for m in mach:
-            print("MACHINERY:", m, file=sys.stderr)
-        sys.exit(2)
-    sys.exit(1 if new else 0)
+    for m in mach:
+        print("MACHINERY:", m, file=sys.stderr)
+    sys.exit(1 if new else (2 if mach else 0))
 
 if __name__ == "__main__":
     main()
